@@ -256,7 +256,8 @@ func (dcc *dataConditionsContainer) finalize(r *Reader, queryPartIndex int, prev
 			for v, vIdx := range varNameIndex {
 				quoted := ""
 				for _, d := range vd.data {
-					if d.queryParts.IsSet(uint(queryPartIndex)) && d.name != v {
+					// only what was captured under this name, for this alternative of the query
+					if !d.queryParts.IsSet(uint(queryPartIndex)) || d.name != v {
 						continue
 					}
 					quoted += quoteBytes(d.value) + "|"
